@@ -1,6 +1,7 @@
 import ServlinVerif.Driver.Util
 import ServlinVerif.Model.Request
 import ServlinVerif.Spec.ReadSpec
+import ServlinVerif.Spec.Framing
 /- Driver for the request-reading suites (c01, c02, c03, c14r, c15r): shared parsing / printing. -/
 namespace Servlin
 namespace Drv.Req
@@ -105,6 +106,36 @@ def handleC01 (args : List String) (obs : String) : String :=
       | none => "FAIL:unparsable:"
       | some (outcome, left) => verdictOf (ReadSpec.check c.cap c.all outcome left)
     model ++ "\t" ++ verdict
+
+/-- `key=value` lookup in an `ok ...` observation. -/
+def obsField (obs : String) (key : String) : Option String :=
+  (obs.splitOn " ").findSome? fun kv =>
+    if kv.startsWith (key ++ "=") then some (kv.drop (key.length + 1)).toString else none
+
+/-- c03: the framing verdict computed from the field list vs what the implementation did. -/
+def handleC03 (args : List String) (obs : String) : String :=
+  match parseCase args with
+  | none => "bad-case\tFAIL:bad-case"
+  | some c =>
+    let model := modelOutcome c
+    let headEnd := (ReadSpec.firstBlankLine c.all).getD c.all.length
+    let (method, fields) := Framing.fieldsOfHead (c.all.take headEnd)
+    let cookieBad := (Framing.valuesOf fields "cookie").any fun v =>
+      (((splitOn 59 v).map trimWs).filter (· ≠ [])).any (fun seg => !seg.contains 61)
+    let fails : List String :=
+      match Framing.verdict method fields with
+      | .reject =>
+        if obs.startsWith "err:InvalidContentLength " || obs.startsWith "err:UnsupportedTransferEncoding " then []
+        else if obs.startsWith "ok " then ["ambiguous-framing-accepted"] else ["wrong-rejection"]
+      | .accept gz ch l body =>
+        if cookieBad then [] else
+        if !obs.startsWith "ok " then ["valid-framing-rejected"] else
+        let bodyS := match body with | .none => "E" | .sized n => s!"K:{n}" | .untilClose => "U"
+        let lenS := match l with | none => "-" | some n => toString n
+        (if obsField obs "gz" == some (b01 gz) && obsField obs "ch" == some (b01 ch) then [] else ["wrong-coding-flags"]) ++
+        (if obsField obs "cl" == some lenS then [] else ["wrong-length"]) ++
+        (if obsField obs "body" == some bodyS then [] else ["wrong-body-kind"])
+    model ++ "\t" ++ verdictOf fails
 
 end Drv.Req
 end Servlin
